@@ -76,6 +76,9 @@ static void run_case(Case &c)
     int ncalls = r.range(20, (int)g_w.optnum("maxcalls", 400));
     int prev_fn = -1;
     double audio_budget_frames = 40000;     // total frames this case may render (scaled by cost)
+    if(g_w.stage == "memcheck") audio_budget_frames = 2500;      // under valgrind a rendered frame costs 30..50 times as much: keep single calls far below the CPU budget
+    // frames a phrase may render in one call: the nominal size, cut down when the configuration is expensive (many chips of a slow core)
+    #define PHRASE_FRAMES(n) ((int)std::max(16.0, std::min((double)(n), (g_w.stage == "memcheck" ? 600.0 : 40000.0) / cost())))
 
     // initial configuration
     {
@@ -335,7 +338,7 @@ static void run_case(Case &c)
             else if(pk == 1) API("opn2_rt_controllerChange", opn2_rt_controllerChange(d, ch, 64, 127));
             for(int j = 0, n = r.range(1, 6); j < n; j++) API("opn2_rt_noteOff", opn2_rt_noteOff(d, ch, (uint8_t)(base + r.below((uint32_t)nk))));
             short pcm[2 * 512];
-            for(int j = 0, n = r.range(2, 8); j < n; j++) { int got = 0; API("opn2_generate", got = opn2_generate(d, 2 * 512, pcm)); (void)got; }
+            for(int j = 0, n = r.range(2, 8), fr = PHRASE_FRAMES(512); j < n; j++) { int got = 0; API("opn2_generate", got = opn2_generate(d, 2 * fr, pcm)); (void)got; }
             if(r.chance(0.5)) API("opn2_rt_controllerChange", opn2_rt_controllerChange(d, ch, pk == 0 ? 66 : 64, 0));
             break;
         }
@@ -353,7 +356,7 @@ static void run_case(Case &c)
             if(r.chance(0.8)) API("opn2_rt_noteOff", opn2_rt_noteOff(d, ch, key));
             int nk = r.range(6, 30);
             for(int j = 0; j < nk; j++) { int rc = 0; API("opn2_rt_noteOn", rc = opn2_rt_noteOn(d, ch, (uint8_t)(30 + ((key + j * 3) % 70)), (uint8_t)r.range(1, 127))); (void)rc; }
-            if(r.chance(0.5)) { short pcm[2 * 1024]; int got = 0; API("opn2_generate", got = opn2_generate(d, 2 * 1024, pcm)); (void)got; }
+            if(r.chance(0.5)) { short pcm[2 * 1024]; int got = 0; API("opn2_generate", got = opn2_generate(d, 2 * PHRASE_FRAMES(1024), pcm)); (void)got; }
             break;
         }
         case 78: case 79:
@@ -364,7 +367,7 @@ static void run_case(Case &c)
             if(r.chance(0.5)) API("opn2_rt_patchChange", opn2_rt_patchChange(d, ch, (uint8_t)r.pick((const int[]){0, 12, 30, 81, 1})));
             int nk = r.range(4, 14), base = r.range(36, 72);
             for(int j = 0; j < nk; j++) { int rc = 0; API("opn2_rt_noteOn", rc = opn2_rt_noteOn(d, ch, (uint8_t)(base + j), (uint8_t)r.range(1, 127))); (void)rc; }
-            if(r.chance(0.5)) { short pcm[2 * 1600]; int n = r.pick((const int[]){64, 512, 1024, 1600}); int got = 0; API("opn2_generate", got = opn2_generate(d, n * 2, pcm)); (void)got; }
+            if(r.chance(0.5)) { short pcm[2 * 1600]; int n = PHRASE_FRAMES(r.pick((const int[]){64, 512, 1024, 1600})); int got = 0; API("opn2_generate", got = opn2_generate(d, n * 2, pcm)); (void)got; }
             break;
         }
         default:
